@@ -235,3 +235,22 @@ def arg_forms(ctx, name, fn, args, prop_exc=(), mutation="violation"):
             elif bytes(buf) != a:
                 ctx.violation(f"arg-form/{name}/{typ}-arg{i}/argument-mutated", f"{name} changed the caller's buffer {a.hex()[:80]} -> {bytes(buf).hex()[:80]}")
     return n
+
+
+_SHORT = None
+
+
+def keys_short_coord():
+    """small private keys whose public point has an x or a y coordinate with a leading zero byte (1 in 128 keys): encodings of
+    fixed width must keep the zero bytes (found by walking k = 1, 2, .. with affine additions; cached)"""
+    global _SHORT
+    if _SHORT is None:
+        G = secp.pub(1)
+        P_, out, k = G, [], 1
+        while len(out) < 8 and k < 5000:
+            if P_[0] >> 248 == 0 or P_[1] >> 248 == 0:
+                out.append(k)
+            k += 1
+            P_ = secp.SECP.add(P_, G)
+        _SHORT = out
+    return list(_SHORT)
